@@ -30,6 +30,10 @@ class Match:
     def __init__(self, string, pos, end, groups, groupdict, ngroups=None):
         self.string = string
         self._ngroups = ngroups
+        self.lastindex = groups.get('last') if isinstance(groups, dict) else None
+        self.lastgroup = next((k for k, v in groupdict.items() if v == self.lastindex), None) if self.lastindex else None
+        self.pos, self.endpos = 0, len(string)
+        groups = {k: v for k, v in groups.items() if k != 'last'} if isinstance(groups, dict) else groups
         self._span = (pos, end)
         self._groups = groups          # index -> (start, end) | None
         self._groupdict = groupdict    # name -> index
@@ -169,6 +173,7 @@ class Pattern:
                 if _gid is not None:
                     g = dict(g)
                     g[_gid] = (_start, p)
+                    g['last'] = _gid           # sre's lastindex: the group whose closing parenthesis was passed last
                 return nxt(p, g)
             return self._m(list(sub), 0, s, pos, groups, fl, close)
         if op in (sc.MAX_REPEAT, sc.MIN_REPEAT):
